@@ -139,6 +139,11 @@ def _same(got, want):
     return (not isinstance(got, (bool, str)) and isinstance(got, (int, float)) and got == want)
 
 
+def _argument_validation_key(key):
+    """mechanisms about a position / count argument that must give #VALUE! whatever the text is"""
+    return key.endswith('-not-VALUE') or key in ('FIND/start-below-1', 'SUBSTITUTE/instance-below-1')
+
+
 def _exc_class(out):
     return out[1].split(':', 1)[0]
 
@@ -207,10 +212,12 @@ class Mon:
             return True
         if out[0] == 'x':
             key = f'{func}/raises-{_exc_class(out)}'
-        elif func != 'TEXT' and any(R.kind(a) == 'float-below-1e-4' for a in args):
-            key = 'NUMBER-RENDERING/float-below-1e-4-in-exponent-notation'
         else:
             key = specific(out[1])
+            if (func != 'TEXT' and not _argument_validation_key(key)
+                    and any(R.kind(a) == 'float-below-1e-4' for a in args)):
+                # the text argument is a number python writes with an exponent: one mechanism for all functions
+                key = 'NUMBER-RENDERING/float-below-1e-4-in-exponent-notation'
         want = ' or '.join(repr(w) for w in accept)
         self.ctx.violation(key, f'{func}({", ".join(repr(a) for a in args)}) = {out[1]!r}, expected {want} '
                                 f'[{clause}]', self.case)
